@@ -382,6 +382,9 @@ func (r *Renderer) render(v ssa.Value) string {
 	case *ssa.Lookup:
 		return r.E(x.X) + "[" + r.E(x.Index) + "]"
 	case *ssa.Slice:
+		if lit, ok := r.arrayLit(x); ok {
+			return lit
+		}
 		s := r.E(x.X) + "["
 		if x.Low != nil {
 			s += r.E(x.Low)
@@ -490,7 +493,9 @@ func (r *Renderer) call(c *ssa.CallCommon) string {
 		if nt := namedOf(c.Value.Type()); nt != nil {
 			name = nt.Obj().Name() + "." + c.Method.Name()
 		}
-		args = append(args, r.E(c.Value))
+		if keeperField(c.Value) == nil {
+			args = append(args, r.E(c.Value))
+		}
 	} else if f := calleeFunc(c); f != nil {
 		name = funcShort(f)
 	} else if b, ok := c.Value.(*ssa.Builtin); ok {
@@ -604,4 +609,44 @@ func (r *Renderer) instrReaches(a, b ssa.Instruction) bool {
 		return true
 	}
 	return r.blockReach(a.Block())[b.Block()]
+}
+
+// arrayLit renders `slice t[:]` of a local array whose elements are stored one by
+// one (variadic arguments and slice literals) as [e0, e1, ...].
+func (r *Renderer) arrayLit(x *ssa.Slice) (string, bool) {
+	a, ok := x.X.(*ssa.Alloc)
+	if !ok || x.Low != nil || x.High != nil {
+		return "", false
+	}
+	at, ok := a.Type().(*types.Pointer).Elem().Underlying().(*types.Array)
+	if !ok || at.Len() > 64 {
+		return "", false
+	}
+	elems := make([]string, at.Len())
+	for i := range elems {
+		elems[i] = "_"
+	}
+	for _, ref := range *a.Referrers() {
+		switch u := ref.(type) {
+		case *ssa.IndexAddr:
+			c, ok := u.Index.(*ssa.Const)
+			if !ok {
+				return "", false
+			}
+			idx, _ := constant.Int64Val(c.Value)
+			for _, rr := range *u.Referrers() {
+				st, ok := rr.(*ssa.Store)
+				if !ok || st.Addr != u {
+					return "", false
+				}
+				if idx >= 0 && int(idx) < len(elems) {
+					elems[idx] = r.E(st.Val)
+				}
+			}
+		case *ssa.Slice:
+		default:
+			return "", false
+		}
+	}
+	return "[" + strings.Join(elems, ", ") + "]", true
 }
